@@ -277,7 +277,7 @@ def run_check(pid: str, tier: str, seed: int, shards: int | None = None) -> int:
     n_shards = shards or int(os.environ.get("VERIF_SHARDS", "16"))
     per = max(1, budget // n_shards)
     shrink_calls = int(os.environ.get("VERIF_SHRINK_CALLS", "400" if tier == "quick" else "3000"))
-    work = ROOT / ".work" / pid
+    work = ROOT / ".work" / f"{pid}.{os.getpid()}"  # per run: two runs of one check must not share shard files
     work.mkdir(parents=True, exist_ok=True)
     for f in work.glob("*.json"):
         f.unlink()
